@@ -103,6 +103,9 @@ class ScopeNameFinder:
             elif isinstance(pyobject, pyobjects.AbstractFunction):
                 parameter_name = rope.base.pynames.ParameterName()
                 return (None, parameter_name)
+            # the keyword of a call whose callee cannot be resolved is not a
+            # reference to a variable of the calling scope
+            return (None, None)
         # class body
         if self._is_defined_in_class_body(holding_scope, offset, lineno):
             class_scope = holding_scope
